@@ -28,6 +28,8 @@ def cases(seed, tier):
     rng = np.random.default_rng([seed, 18])
     for i in range(n):
         yield {"family": FAMS[i % len(FAMS)], "sub": int(rng.integers(0, 2**31))}
+    for i in range(1 if tier == "quick" else 6):
+        yield {"family": "big", "sub": int(rng.integers(0, 2**31)), "first": i == 0, "cap": 2 ** 21 + 1 if tier == "quick" else None}
 
 
 def close(got, exp, scale, rtol=1e-12):
@@ -343,7 +345,35 @@ def _weights0(rng, n):
     return rng.integers(1, 6, size=n).astype("f8")
 
 
+def run_big(case):
+    import esutil.stat as st
+    rng = np.random.default_rng(case["sub"])
+    n = gen.big_size(rng, cap=case.get("cap"), first=case.get("first", False))
+    win = gen.windows(rng, n)
+    COL.sample({"family": "big", "n": n}, limit=2)
+    x = np.cumsum(rng.uniform(0.1, 1.0, size=50))
+    v = rng.normal(size=50)
+    u = rng.uniform(x[0] - 3, x[-1] + 3, size=n)
+    probe.big_vs_windows("C18.interplin", "interplin(long query)", lambda q: st.interplin(v, x, q), [u], win)
+    # a long table, short query: the table itself is the long array
+    xt = np.cumsum(rng.uniform(0.1, 1.0, size=n))
+    vt = rng.normal(size=n)
+    q = np.sort(rng.uniform(xt[0], xt[-1], size=200))
+    got, e = probe.attempt(st.interplin, vt, xt, q)
+    if e is None:
+        exp = np.interp(q, xt, vt)
+        if np.shape(got) == exp.shape and np.all(np.abs(got - exp) <= 1e-9 * (1 + np.abs(exp))):
+            COL.ok("C18.interplin", ("big-table", int(np.log2(n))))
+        else:
+            COL.violation("C18.interplin", "interplin on a table of %d points differs from piecewise-linear interpolation" % n, {"n": n})
+    # moments of a long array: the definition in long double on the whole array is cheap
+    a, w = rng.normal(size=n) * 3 + 10, rng.uniform(0.1, 2, size=n)
+    probe.attempt(st.wmom, a, w, calcerr=bool(rng.integers(0, 2)), sdev=True)
+
+
 def run_case(case):
+    if case["family"] == "big":
+        return run_big(case)
     import esutil.stat as st
     rng = np.random.default_rng(case["sub"])
     fam = case["family"]
